@@ -40,16 +40,16 @@ def c20(ctx: Ctx):
         #   thorough: all of the above at stride 1 except lexical operators (1/2 of the nodes); pairs = first mutation on 1/28 of the nodes
         #             x second mutation on 1/64 of the nodes (all of them run); graphs of <= 3 steps exhaustively + 1/4 of the 4-step graphs
         full = os.environ.get("VERIF_C20_FULL", "") == "1"
-        T = dict(quick=dict(maxmut=1, pair=1, first=1, var=8, sparse=3, lex=10, g=(3, 1, 1, 2, 8)),
-                 thorough=dict(maxmut=2, pair=64, first=28, var=1, sparse=1, lex=2, g=(4, 1, 1, 3, 4)))[ctx.tier]
+        T = dict(quick=dict(maxmut=1, pair=1, first=1, var=8, sparse=3, lex=10, num=6, g=(3, 1, 1, 2, 8)),
+                 thorough=dict(maxmut=2, pair=64, first=28, var=1, sparse=1, lex=2, num=1, g=(4, 1, 1, 3, 4)))[ctx.tier]
         if full:
-            T = dict(quick=dict(maxmut=1, pair=1, first=1, var=1, sparse=1, lex=1, g=(3, 1, 1, 3, 1)),
-                     thorough=dict(maxmut=2, pair=32, first=1, var=1, sparse=1, lex=1, g=(4, 2, 2, 4, 1)))[ctx.tier]
+            T = dict(quick=dict(maxmut=1, pair=1, first=1, var=1, sparse=1, lex=1, num=1, g=(3, 1, 1, 3, 1)),
+                     thorough=dict(maxmut=2, pair=32, first=1, var=1, sparse=1, lex=1, num=1, g=(4, 2, 2, 4, 1)))[ctx.tier]
         maxmut, stride, lexstride = T["maxmut"], T["pair"], T["lex"]
         sparse_ops = ('{"delete", "to_null", "to_empty_obj"}' if ctx.tier == "quick" else
                       '{"to_null", "to_bool", "to_num", "to_str", "to_arr", "to_obj", "to_empty_obj", "to_empty_str", "delete", "dup_key_other_type", "nest_deep", "huge_number", "ref_dangling", "ref_hash_only", "ref_empty"}')
-        cfg = ("SPECIFICATION Spec\nCONSTANTS NNodes = %d\n MaxMut = %d\n PairStride = %d\n FirstStride = %d\n VarStride = %d\n SparseStride = %d\n LexStride = %d\n Seed = %d\n SparseNodes = 30\n SparseOps = %s\nINVARIANT Emit\nCHECK_DEADLOCK FALSE\n"
-               % (nn, maxmut, stride, T["first"], T["var"], T["sparse"], lexstride, ctx.seed, sparse_ops))
+        cfg = ("SPECIFICATION Spec\nCONSTANTS NNodes = %d\n MaxMut = %d\n PairStride = %d\n FirstStride = %d\n VarStride = %d\n SparseStride = %d\n LexStride = %d\n NumStride = %d\n Seed = %d\n SparseNodes = 30\n SparseOps = %s\nINVARIANT Emit\nCHECK_DEADLOCK FALSE\n"
+               % (nn, maxmut, stride, T["first"], T["var"], T["sparse"], lexstride, T["num"], ctx.seed, sparse_ops))
         open(ctx.spec("Gen_C20_run.cfg"), "w").write(cfg)
         # development aid: VERIF_C20_ONLY=graph|mut restricts the run to one half of the universe (a full run sets nothing)
         only = os.environ.get("VERIF_C20_ONLY", "")
@@ -79,6 +79,20 @@ def c20(ctx: Ctx):
         with open(cases, "a") as f:
             for l in open(gcases):
                 f.write(l)
+        # shared targets (spec/RefShare.tla): two references of two kinds to one external file
+        scfg = "SPECIFICATION SSpec\nCONSTANTS SContents = \"%s\"\nINVARIANT SEmit\nCHECK_DEADLOCK FALSE\n" % ("own" if ctx.tier == "quick" and not full else "all")
+        open(ctx.spec("Gen_C20S_run.cfg"), "w").write(scfg)
+        if os.path.exists(ctx.spec("cases.ndjson")):
+            os.remove(ctx.spec("cases.ndjson"))
+        if only in ("", "graph"):
+            ctx.tlc("Gen_C20S", "Gen_C20S_run.cfg", label="F generate shared-target documents", timeout=600)
+        scases = os.path.join(ctx.scratch, "scases.ndjson")
+        ns = ctx.unquote(ctx.spec("cases.ndjson"), scases)
+        with open(cases, "a") as f:
+            for l in open(scases):
+                f.write(l)
+        log("[gen] %d shared-target cases" % ns)
+        n += ns
         log("[gen] %d reference-graph cases (<= %d steps, <= %d chained schema sites)" % (ng, gmax, gschema))
         n += ng
         ctx.extra["graph_constants"] = dict(GMaxSteps=gmax, GMaxSchemaSteps=gschema, GTier=gtier, GOfatSteps=gofat, GFullSteps=gfull, GStride=gstride, cases=ng)
@@ -96,7 +110,7 @@ def c20(ctx: Ctx):
         ctx.nontrivial.add(casehash(o["c"]))
         k = o["obs"]["load"]
         outcomes[k] = outcomes.get(k, 0) + 1
-        if o["c"]["base"]["kind"] == "graph":
+        if o["c"]["base"]["kind"] in ("graph", "share"):
             goutcomes[k] = goutcomes.get(k, 0) + 1
         if rng.random() < 6.0 / 20000:
             ctx.samples.append(dict(c=o["c"], obs=o["obs"]))
